@@ -4,11 +4,11 @@
 package c05
 
 import (
-	"strconv"
 	"context"
 	"fmt"
 	"math"
 	"math/big"
+	"strconv"
 	"strings"
 	"testing"
 	"time"
@@ -28,7 +28,8 @@ type Node struct {
 	I    int64  `json:"i,omitempty"`    // int leaf
 	FB   uint64 `json:"fb,omitempty"`   // float leaf (bits)
 	S    string `json:"s,omitempty"`    // string leaf
-	Prov string `json:"prov,omitempty"` // lit | var | id | elem | velem | mapv | tern
+	Prov string `json:"prov,omitempty"` // lit | var | id | elem | velem | mapv | tern | goint | numstr | coal | hvar
+	F    int    `json:"f,omitempty"`    // prov coal: which failing expression stands left of the ??
 	L    *Node  `json:"l,omitempty"`
 	R    *Node  `json:"r,omitempty"`
 }
@@ -70,10 +71,32 @@ var cmpOps = []string{"<", "<=", ">", ">=", "==", "!="}
 // list literal / of a list held in a variable, map entry, ternary
 // goint: an integer handed over by a Go function as a plain Go int (what strconv.Atoi, len-like
 // helpers and struct fields give): the same number, so every operator must treat it like the int64
-var provs = []string{"lit", "lit", "lit", "var", "var", "id", "id", "elem", "velem", "mapv", "tern", "goint"}
+// coal: the right side of a `??` whose left side fails or is nil: `((2 + nosuch) ?? 10)` is 10 (the
+// left side's failure is over when the ?? has given its right side; what encloses it works on 10)
+var provs = []string{"lit", "lit", "lit", "var", "var", "id", "id", "elem", "velem", "mapv", "tern", "goint", "coal"}
+
+// coalLeft are expressions that fail (or are nil): in the left operand, in the right operand, in
+// the operator itself, with no operator at all.
+var coalLeft = []string{
+	"nosuchname",
+	"(2 + nosuchname)",
+	"(nosuchname * 3)",
+	"(50 % 0)",
+	"(7 - [1][3])",
+	"nil",
+	"(\"ab\" * (-1))",
+	"(1 < nosuchname)",
+	"(4 / nosuchfunc())",
+	"(\"s\" + nosuchname)",
+	"(6 & (1 % 0))",
+	"(-nosuchname)",
+}
 
 func genLeaf(t *rapid.T, k string) *Node {
 	n := &Node{Op: "leaf", K: k, Prov: rapid.SampledFrom(provs).Draw(t, "prov")}
+	if n.Prov == "coal" {
+		n.F = rapid.IntRange(0, len(coalLeft)-1).Draw(t, "coalleft")
+	}
 	switch k {
 	case "i":
 		n.I = vals.Int().Draw(t, "i")
@@ -211,6 +234,9 @@ type printer struct {
 	flat bool
 	vars []string // prelude assignments
 	b    strings.Builder
+	// hvars: leaves of provenance "hvar", in the order of their names h0, h1, ...: variables the
+	// host defines before every run (sub-check parallel)
+	hvars []*Node
 }
 
 func (p *printer) leafLit(n *Node) string {
@@ -263,6 +289,16 @@ func (p *printer) expr(n *Node) string {
 				return "gi(" + lit + ")"
 			}
 			return "id(" + lit + ")"
+		case "coal":
+			f := n.F
+			if f < 0 || f >= len(coalLeft) {
+				f = 0
+			}
+			return "(" + coalLeft[f] + " ?? " + lit + ")"
+		case "hvar":
+			name := fmt.Sprintf("h%d", len(p.hvars))
+			p.hvars = append(p.hvars, n)
+			return name
 		}
 		return lit
 	case "neg", "inv":
@@ -549,6 +585,12 @@ func oracle(c Case, o *h.Obs) *h.Fail {
 	if wantErr {
 		o.Class("reference_error")
 	}
+	if any, right := hasCoal(c.Root, false); any {
+		o.Class("operand_from_recovered_failure")
+		if right {
+			o.Class("operand_from_recovered_failure_in_a_right_operand")
+		}
+	}
 
 	got, err := ank.Exec(newEnv(), src)
 	if hp, ok := ank.IsHostPanic(err); ok {
@@ -582,6 +624,19 @@ func oracle(c Case, o *h.Obs) *h.Fail {
 		return h.Failf("C05|wrong-result|"+c.Root.Op+"|"+want.k, "source:\n%s\nreference (native Go): %v\nanko: %s", src, want, ank.Describe(got))
 	}
 	return nil
+}
+
+// hasCoal: the tree has a leaf of provenance coal; one of them inside the right operand of an operator.
+func hasCoal(n *Node, underRight bool) (any, right bool) {
+	if n == nil {
+		return false, false
+	}
+	if n.Op == "leaf" {
+		return n.Prov == "coal", n.Prov == "coal" && underRight
+	}
+	a1, r1 := hasCoal(n.L, underRight)
+	a2, r2 := hasCoal(n.R, true)
+	return a1 || a2, r1 || r2
 }
 
 // ---------- sub-check "cached": small-value fast paths keep returning the same values ----------
@@ -730,7 +785,6 @@ func oracleHist(c HistCase, o *h.Obs) *h.Fail {
 	return nil
 }
 
-
 // ---------- sub-check "site": one operator site, many operand pairs ----------
 
 // SiteCase: a function `func(x, y) { return x OP y }` (or a unary one) is called for a row of
@@ -859,10 +913,15 @@ func oracleSite(c SiteCase, o *h.Obs) *h.Fail {
 func TestC05(t *testing.T) {
 	c := h.New(t, "C05")
 	defer c.Finish()
-	c.Rule("trees of depth<=4 over + - * / % & | << >>, unary - ^, comparisons; leaves from the int64/float64/string edge pools as literal, variable or id(x) result; operand kinds restricted to those the statement defines; non-trivial = an operand outside [-1,4095] or a mixed int/float node or a wrap-around/oversized shift in the reference; distinct by source text")
+	// parallel runs first: a process that has just started gets its threads onto several cores more readily than one that has computed for 15 s (it matters on a loaded machine)
+	c.Rule("parallel: 2-8 host goroutines, each with its own environment and its own parsed program (a list of 2-5 trees over literals, script variables and host variables; in 3 of 4 cases one program for all workers with the host variables of worker w moved by w * a second stride, else a program of its own for each; host variables are redefined before every run: I + (round mod period) * stride; strides mostly +-2^k), run 1000-3000 times at the same time; every run must give what Go computes for that worker's operands (each program is first run alone for every operand row); non-trivial = >= 2 workers and an operand outside [-1,4095] or a wrap-around; distinct by the programs' text")
+	h.Run(c, "parallel", c.N(160, 1600), genPar, oracleParallel)
+	c.Rule("trees of depth<=4 over + - * / % & | << >>, unary - ^, comparisons; leaves from the int64/float64/string edge pools as literal, variable, id(x) result, container element, ternary, Go int or the right side of a ?? whose left side fails (12 failing forms); operand kinds restricted to those the statement defines; non-trivial = an operand outside [-1,4095] or a mixed int/float node or a wrap-around/oversized shift in the reference; distinct by source text")
 	h.Run(c, "arith", c.N(60000, 500000), genCase, oracle)
 	c.Rule("cached: 1-3 statements that compute integers in the cached band -1..4095 and then write through a pointer / ++ / op= / element / map entry / struct field / parameter, followed by an integer tree over small leaves: the tree must still evaluate to Go's result (no shared mutable boxes behind the small-value fast path); every case counts as non-trivial; distinct by source text")
 	h.Run(c, "cached", c.N(15000, 150000), genHist, oracleHist)
 	c.Rule("site: a function applying ONE operator to its parameters is called for 2-6 operand pairs of different kinds (int64/float64/string edge pools); every call must give what Go computes for that pair alone (errors included), whatever the same source location computed before; non-trivial = the pairs are of >= 2 kind combinations")
 	h.Run(c, "site", c.N(15000, 150000), genSite, oracleSite)
+	c.Rule("again: one parsed expression tree (half of the leaves literals; a third of the trees hold an operator the statement makes an error: % by zero, a string repeated a negative number of times) evaluated 2-4 times: body of a function called again, loop body, the parsed statements run again by the host (fresh / same environment); every evaluation must give what Go computes for the operands, errors included; non-trivial = the tree has an operator; distinct by form and source text")
+	h.Run(c, "again", c.N(5000, 50000), genAgain, oracleAgain)
 }
